@@ -89,7 +89,9 @@ static struct {
 	long  raws;
 } objs[MAXO];
 static int made;
+static long blocks_before;          /* seam blocks (not global tables) alive when the step began */
 static const char *plugin_path;
+static void (*plugin_budget)(long);   /* instance limit of the plugin constructor (0: it answers nothing) */
 static void *plugin_self;            /* the driver's own mapping of the plugin: its code stays while instances live */
 
 /* layout of the proxy object of mptloader/library_meta.c (private there) */
@@ -277,31 +279,49 @@ static void emit(struct cmd *c, const char *ret, const int *was)
 	}
 	j_ints("cnt", v, nobj);
 	j_int("quiet", vf_live_untagged());
+	j_int("dblk", vf_live_untagged() - blocks_before);
 	j_int("badfree", vf_badfree + vf_mismatch);
 	drv_dbg();
 	j_int("blocks", vf_live());
 	drv_end();
 }
 
-static void *create_obj(int cls, const char *via, int h)
+/* description "symbol@library" of the class the step names */
+static void describe(char *desc, size_t max, const char *how)
 {
+	if (how && !strcmp(how, "nolib")) snprintf(desc, max, "x15_make@/nonexistent/x15/libnone.so");
+	else if (how && !strcmp(how, "nosym")) snprintf(desc, max, "x15_nothing@%s", plugin_path);
+	else if (how && !strcmp(how, "emptysym")) snprintf(desc, max, "@%s", plugin_path);
+	else if (how && !strcmp(how, "longsym")) {
+		memset(desc, 'x', 140);
+		snprintf(desc + 140, max - 140, "@%s", plugin_path);
+	}
+	else snprintf(desc, max, "x15_make@%s", plugin_path);
+}
+static void *create_obj(int cls, const char *via, int h, const char *how)
+{
+	char desc[1400];
+	void *p;
 	switch (cls) {
 	case CLib:
 		if (via && !strcmp(via, "bind")) {
 			MPT_STRUCT(libsymbol) sym = MPT_LIBSYMBOL_INIT;
-			char desc[1200];
 			sym.lib = (MPT_STRUCT(libhandle) *) slot[h - 1];
-			snprintf(desc, sizeof(desc), "x15_make@%s", plugin_path);
-			if (mpt_library_bind(&sym, desc, 0, 0) < 0) return 0;
+			describe(desc, sizeof(desc), how);
+			if (mpt_library_bind(&sym, desc, 0, 0) < 0) {
+				slot[h - 1] = sym.lib;  /* what the symbol handle holds after the refusal */
+				return 0;
+			}
 			slot[h - 1] = 0;      /* the symbol handle holds the new library now */
 			return sym.lib;
 		}
-		return mpt_library_open(plugin_path, 0);
-	case CProxy: {
-		char desc[1200];
-		snprintf(desc, sizeof(desc), "x15_make@%s", plugin_path);
-		return mpt_library_meta(MPT_ENUM(TypeMetaPtr), desc, 0, 0);
-	}
+		return mpt_library_open(how && !strcmp(how, "nolib") ? "/nonexistent/x15/libnone.so" : plugin_path, 0);
+	case CProxy:
+		describe(desc, sizeof(desc), how);
+		if (how && !strcmp(how, "nofactory") && plugin_budget) plugin_budget(0);
+		p = mpt_library_meta(MPT_ENUM(TypeMetaPtr), desc, 0, 0);
+		if (plugin_budget) plugin_budget(-1);
+		return p;
 	case COutLocal:  return mpt_output_local();
 	case COutRemote: return mpt_output_remote();
 	default: return ocxx_create(cls);
@@ -324,6 +344,7 @@ static void drv_step(struct cmd *c)
 	int was[MAXO], i;
 
 	vf_step();
+	blocks_before = vf_live_untagged();
 	for (i = 0; i < MAXO; i++) was[i] = obj_alive(i + 1);
 	if (h < 0 || h > nh || g < 0 || g > nh) goto bad;
 
@@ -337,6 +358,7 @@ static void drv_step(struct cmd *c)
 		if (!plugin_self && plugin_path && (plugin_self = dlopen(plugin_path, RTLD_NOW))) {
 			*(void **) &bind = dlsym(plugin_self, "x15_bind");
 			if (bind) bind(vf_malloc, vf_free);
+			*(void **) &plugin_budget = dlsym(plugin_self, "x15_budget");
 		}
 		/* warm-up: tables the library sets up once per process are not part of any object */
 		{
@@ -384,6 +406,7 @@ static void drv_step(struct cmd *c)
 			vf_tag_all(1);
 			vf_step();
 			vf_mismatch = 0;
+			blocks_before = vf_live_untagged();
 		}
 		emit(c, "ok", 0);
 	}
@@ -392,7 +415,7 @@ static void drv_step(struct cmd *c)
 		void *p;
 		if (!h || !cls) goto bad;
 		if (slot[h - 1] && !(via && !strcmp(via, "bind"))) goto bad;
-		if (!(p = create_obj(cls, via, h))) { emit(c, "refused", was); return; }
+		if (!(p = create_obj(cls, via, h, drv_raw(c, "how")))) { emit(c, "refused", was); return; }
 		slot[h - 1] = p;
 		register_with_parts(p, cls);
 		emit(c, "ok", was);
@@ -480,7 +503,10 @@ static void drv_step(struct cmd *c)
 		int ao;
 		if (!h || !g || slot[g - 1] || (ao = obj_of(slot[h - 1])) <= 0) goto bad;
 		mt = (MPT_INTERFACE(metatype) *) slot[h - 1];
-		if (!(n = mt->_vptr->clone(mt))) { emit(c, "refused", was); return; }
+		if (drv_int(c, "fail", 0) && plugin_budget) plugin_budget(0);
+		n = mt->_vptr->clone(mt);
+		if (plugin_budget) plugin_budget(-1);
+		if (!n) { emit(c, "refused", was); return; }
 		slot[g - 1] = n;
 		obj_register(n, objs[ao - 1].cls);
 		if (objs[ao - 1].cls == CProxy) obj_register(((struct proxy_layout *) n)->ptr, CInst);
